@@ -481,10 +481,13 @@ fn resolve_vertex_type_implementer_edge<'a>(
     vertex: &SchemaVertex<'a>,
 ) -> Box<dyn Iterator<Item = SchemaVertex<'a>> + 'a> {
     let vertex = vertex.as_vertex_type().expect("not a VertexType");
+    let vertex_type_name = vertex.defn.name.node.as_str();
     Box::new(
         schema
-            .subtypes(vertex.defn.name.node.as_str())
+            .subtypes(vertex_type_name)
             .expect("input type was not part of this schema")
+            // `Schema::subtypes()` includes the type itself, which is not its own implementer.
+            .filter(move |implementer_type| *implementer_type != vertex_type_name)
             .filter_map(|implementer_type| {
                 schema
                     .vertex_types
